@@ -949,3 +949,120 @@ package gpbft
 //@   modifies auto
 //@   maypanic
 
+
+// ---- C04: the canonical order of a power table: power descending, participant id ascending among equals ----
+//@ func (PowerEntries).Less
+//@   property C04
+//@   requires 0 <= i && i < len(p) && 0 <= j && j < len(p)
+//@   modifies nothing
+//@   ensures[power_descending_then_id_ascending] result == (p[i].Power > p[j].Power || (p[i].Power == p[j].Power && p[i].ID < p[j].ID))
+
+//@ func (PowerEntries).Swap
+//@   property C04
+//@   requires 0 <= i && i < len(p) && 0 <= j && j < len(p)
+//@   modifies p[]
+//@   ensures[exchanges_the_two_entries_and_nothing_else] p[i] == old(p[j]) && p[j] == old(p[i]) && forall(k, 0, len(p), k != i && k != j ==> p[k] == old(p[k]), trigger(p[k]))
+
+//@ func (PowerEntries).Len
+//@   property C04
+//@   pure
+//@   ensures result == len(p)
+
+// ---- C07 / C02: the QUALITY tally counts every prefix of a voted chain, once per sender ----
+//@ func (*quorumState).ReceiveEachPrefix
+//@   property C07 C02
+//@   requires totalOK(q)
+//@   modifies auto
+//@   maypanic
+//@   loop 1
+//@     invariant totalOK(q)
+//@   at receiveInner 1
+//@     before[each_prefix_is_counted_for_a_first_time_sender_with_its_table_power] res(receiveSender, 1, 1) && argOf(receiveSender, 1, 1) == sender && arg(0) == q && arg(1) == sender
+//@          && arg(2) == res(Prefix, 1) && argOf(Prefix, 1, 0) == values && argOf(Prefix, 1, 1) == j + 1 && arg(3) == res(receiveSender, 1, 0) && len(arg(4)) == 0
+//@   at Suffix 1
+//@     before[prefixes_of_the_voted_chain] arg(0) == values
+
+// Late QUALITY votes widen the candidate set by the prefixes of the longest input prefix that now has a strong quorum.
+//@ func (*instance).updateCandidatesFromQuality
+//@   property C07 C02
+//@   modifies auto
+//@   maypanic
+//@   at addCandidatePrefixes 1
+//@     before[candidates_come_from_the_longest_quorum_backed_prefix_of_the_own_input] arg(0) == i && arg(1) == res(FindStrongQuorumValueForLongestPrefixOf, 1)
+//@          && argOf(FindStrongQuorumValueForLongestPrefixOf, 1, 0) == i.quality && argOf(FindStrongQuorumValueForLongestPrefixOf, 1, 1) == i.input
+
+// The CONVERGE winner: the running best is replaced only by a value that is better (the running best is not valid yet, or
+// the value's ticket rank is strictly lower), so what is returned is never beaten by an admissible value seen later.
+//@ func (*convergeState).FindBestTicketProposal
+//@   property C07
+//@   modifies auto
+//@   maypanic
+//@   at loopback 1
+//@     before[the_running_best_changes_only_to_a_better_value_of_this_round] bestValue == prev(bestValue) || (bestValue == value
+//@          && (prev(bestValue).Chain == nil || len(prev(bestValue).Chain.TipSets) == 0 || prev(bestValue).Justification == nil || value.Rank < prev(bestValue).Rank))
+//@   at return 0
+//@     before[returns_the_running_best] arg(0) == bestValue
+
+// ---- C15 / C07: the participant's API boundary ----
+
+// A new instance starts from the host's proposal for exactly the current instance, cut to the protocol maximum and
+// validated, with the committee of that same instance; messages queued for it are delivered only after it started.
+//@ func (*Participant).beginInstance
+//@   property C15 C07
+//@   modifies auto
+//@   maypanic
+//@   at Prefix 1
+//@     before[proposal_is_cut_to_the_protocol_maximum] arg(0) == res(GetProposal, 1, 1) && arg(1) == ChainMaxLen - 1 && res(GetProposal, 1, 2) == nil && !res(IsZero, 1) && argOf(IsZero, 1, 0) == res(GetProposal, 1, 1)
+//@   at Validate 1
+//@     before[the_cut_proposal_is_validated] arg(0) == res(Prefix, 1)
+//@   at GetCommittee 1
+//@     before[committee_of_the_instance_being_started] arg(2) == currentInstance && argOf(GetProposal, 1, 1) == currentInstance && res(Validate, 1) == nil
+//@   at newInstance 1
+//@     before[instance_is_built_from_the_validated_proposal_and_that_committee] res(Validate, 1) == nil && res(GetCommittee, 1, 1) == nil && arg(0) == p && arg(1) == currentInstance && arg(2) == res(Prefix, 1)
+//@          && arg(3) == res(GetProposal, 1, 0) && arg(4) == res(GetCommittee, 1, 0).PowerTable && arg(5) == res(GetCommittee, 1, 0).AggregateVerifier && arg(6) == res(GetCommittee, 1, 0).Beacon
+//@   at ReceiveMany 1
+//@     before[queued_messages_of_this_instance_are_delivered_after_the_start] res(Start, 1) == nil && dominatedBy(Start, 1) && arg(1) == res(Drain, 1) && argOf(Drain, 1, 1) == p.gpbft.current.ID
+
+// Only messages of the current instance reach the state machine; older ones are dropped, newer ones queued; an error
+// of the state machine is reported as an internal error.
+//@ func (*Participant).ReceiveMessage
+//@   property C07
+//@   modifies auto
+//@   maypanic
+//@   at Receive 1
+//@     before[only_a_message_of_the_running_instance_is_delivered] arg(0) == p.gpbft && p.gpbft != nil && arg(1) == msg && msg.Vote.Instance == currentInstance
+//@   at Add 1
+//@     before[a_message_for_a_later_instance_or_a_not_yet_started_one_is_queued] arg(1) == msg && msg.Vote.Instance >= currentInstance && (p.gpbft == nil || msg.Vote.Instance > currentInstance)
+//@   at return 1
+//@     before[an_old_message_is_dropped_without_error] arg(0) == nil && msg.Vote.Instance < currentInstance
+
+//@ func (*Participant).ReceiveAlarm
+//@   property C07
+//@   modifies auto
+//@   maypanic
+//@   opaque ReceiveAlarm
+//@   at beginInstance 1
+//@     before[an_alarm_without_a_running_instance_starts_one] p.gpbft == nil
+//@   at ReceiveAlarm 1
+//@     before[otherwise_the_alarm_goes_to_the_running_instance] arg(0) == p.gpbft && p.gpbft != nil
+
+//@ func (*Participant).StartInstanceAt
+//@   property C07
+//@   modifies auto
+//@   maypanic
+//@   at beginNextInstance 1
+//@     before[the_current_instance_is_finished_before_moving_to_the_requested_one] arg(1) == instance && dominatedBy(finishCurrentInstance, 1)
+//@   at SetAlarm 1
+//@     before[the_alarm_is_set_for_the_requested_time] arg(0) == when && dominatedBy(beginNextInstance, 1)
+
+// Moving on: progress becomes (next instance, round 0, INITIAL); only messages queued for instances below it are dropped.
+//@ func (*Participant).beginNextInstance
+//@   property C07
+//@   modifies auto
+//@   maypanic
+//@   at loopback 1
+//@     before[messages_queued_for_the_next_instance_and_later_are_kept] forall(uint64(k), k >= nextInstance ==> has(p.mqueue.messages, k) == prev(has(p.mqueue.messages, k)), trigger(has(p.mqueue.messages, k)))
+//@   at EvictCommitteesBefore 1
+//@     before[the_previous_instances_committee_is_kept] nextInstance > 0 && arg(1) == nextInstance - 1
+//@   at NotifyProgress 1
+//@     before[progress_restarts_at_the_next_instance] arg(1).Instant.ID == nextInstance && arg(1).Instant.Round == 0 && arg(1).Instant.Phase == INITIAL_PHASE
